@@ -14,6 +14,7 @@ from pandera.api.polars.utils import get_lazyframe_column_names
 from pandera.backends.base import ColumnInfo, CoreCheckResult
 from pandera.backends.polars.base import PolarsSchemaBackend
 from pandera.config import ValidationDepth, ValidationScope, get_config_context
+from pandera.constants import CHECK_OUTPUT_KEY
 from pandera.errors import (
     ParserError,
     SchemaDefinitionError,
@@ -612,6 +613,7 @@ class DataFrameSchemaBackend(PolarsSchemaBackend):
         passed = True
         message = None
         failure_cases = None
+        check_output = None
 
         if not schema.unique:
             return CoreCheckResult(
@@ -635,9 +637,16 @@ class DataFrameSchemaBackend(PolarsSchemaBackend):
                 # none of these columns is in the frame (their absence is
                 # reported by the column presence check)
                 continue
-            duplicates = check_obj.select(subset).collect().is_duplicated()
+            subset_df = check_obj.select(subset).collect()
+            duplicates = subset_df.is_duplicated()
             if duplicates.any():
-                failure_cases = check_obj.filter(duplicates)
+                # the duplicated rows (materialized: the error report cannot
+                # hold a lazy frame) and the row mask that says which rows
+                # they are, as for every other row-wise check
+                failure_cases = subset_df.filter(duplicates)
+                check_output = pl.DataFrame(
+                    {CHECK_OUTPUT_KEY: duplicates.not_()}
+                )
 
                 passed = False
                 message = f"columns '{*subset,}' not unique:\n{failure_cases}"
@@ -645,6 +654,7 @@ class DataFrameSchemaBackend(PolarsSchemaBackend):
         return CoreCheckResult(
             passed=passed,
             check="multiple_fields_uniqueness",
+            check_output=check_output,
             reason_code=SchemaErrorReason.DUPLICATES,
             message=message,
             failure_cases=failure_cases,
